@@ -47,7 +47,7 @@ macro "c05_open" : tactic => `(tactic|
     St.size, ctorState, lastOf, elemAt_eq, shrinkTo, constructEnd, putElems, withElems,
     VW.at_, VW.front, VW.back, VW.removePrefix, VW.removeSuffix, VW.copy, VW.substr, VW.narrow, VW.sub,
     SP.at_, SP.front, SP.back, SP.first, SP.last, SP.subspan, SP.firstT, SP.lastT, SP.subspanT, SP.ctorExt,
-    IV.front, IV.back, IV.at_, IV.append, IV.popBack, AR.at_, AR.front, AR.back,
+    IV.front, IV.back, IV.backP, IV.zeroMember, IV.at_, IV.append, IV.popBack, AR.at_, AR.front, AR.back,
     SV.at_, SV.front, SV.back, SV.indexGuard, SV.pushBack, SV.emplaceBack, SV.popBack, SV.setSizeGuard, SV.itInRange, SV.pairInRange,
     SV.destroyGuard, SV.clear, SV.rotateAt, putAlt,
     STR.front, STR.back, STR.at_, STR.pushBack, STR.popBack, STR.eraseRng, STR.setSizeGuard, STR.ctorPtr, STR.ctorFill, STR.assignPtr,
